@@ -376,7 +376,39 @@ func (s *c11State) step(r *gen.R) {
 	say := func(f string, a ...interface{}) { s.log = append(s.log, fmt.Sprintf(f, a...)) }
 	period := func() int { return r.Range(1, 3) }
 	s.dest = nil
-	switch r.Intn(28) {
+	switch r.Intn(29) {
+	case 28:
+		// many at once: a row that is still being put together (or the table) gets 11-30 errors in one go - more than
+		// any initial capacity, and more than what the table holds so far
+		n := r.Range(11, 30)
+		var row *c11Row
+		if len(s.held) > 0 && r.Chance(2, 3) {
+			row = s.held[r.Intn(len(s.held))]
+		}
+		src, what := 0, "table.AddErrorList(many)"
+		if row != nil {
+			src, what = row.src, "row.AddErrorList(many)-before-attach"
+		}
+		list := make([]error, 0, n)
+		for k := 0; k < n; k++ {
+			e := s.raise(src, what)
+			s.expect(e, row)
+			list = append(list, e.err)
+		}
+		s.c.Rec.Count("bulk_recordings_of_11_to_30_errors", 1)
+		switch {
+		case row == nil:
+			say("t.AddErrorList(%d errors)", n)
+			t.AddErrorList(list)
+		case r.Bool():
+			say("held row: AddErrorList(%d errors)", n)
+			row.h.AddErrorList(list)
+		default:
+			say("held row: %d x AddError", n)
+			for _, e := range list {
+				row.h.AddError(e)
+			}
+		}
 	case 27:
 		// recording calls that record nothing (a nil error, a nil or empty list, a list of nils - the usual
 		// one-slot-per-validator slice when every validator passed) on a row, attached or not: they change nothing,
